@@ -783,3 +783,179 @@ def unit_find_operators(case="mixed", timeout_ms=10000):
         eng.oblige("result-is-the-canonically-sorted-list-of-the-distinct-generators-of-expr-and-expr.doit()", z3.BoolVal(got == want), detail=f"got {got}, want {want}")
         eng.oblige("doit-evaluated-once", z3.BoolVal(len(doits) == 1))
     return run_unit(f"number_ordered_form:find_operators[{case}]", harness, functions=[(MODULE, "find_operators")], timeout_ms=timeout_ms)
+
+
+# ---- NumberOperator ------------------------------------------------------------------------------------
+
+def unit_number_operator(kind, timeout_ms=10000):
+    """NumberOperator.doit / _eval_power for kind in BosonOp | FermionOp | SigmaOpBase | LadderOp:
+      doit:  N = c^+ c for bosons and fermions (the adjoint on the LEFT), (sigma_z + 1) / 2 for a spin (= sigma_+ sigma_-, the occupation of the state that SigmaMinus lowers), itself for a ladder mode;
+      power: a non-zero integer power of a fermionic or spin number operator is the operator itself (idempotent); everything else is left to sympy (super()._eval_power)."""
+    def harness(eng):
+        NAME = T("mode-name")
+
+        class Sym(Model):
+            def __init__(s, name):
+                s.name = name
+
+            def m_getattr(s, e, attr):
+                if attr == "name":
+                    return s.name
+                raise Unsupported(f"symbol.{attr}")
+        KIND = Sym(kind)
+        made = []
+
+        class Me(Model):
+            def m_getattr(s, e, attr):
+                if attr == "args":
+                    return STup([NAME, KIND])
+                raise Unsupported(f"self.{attr}")
+        me = Me()
+
+        class TypeMap(Model):
+            def m_getitem(s, e, key):
+                if key is not KIND:
+                    raise Unsupported("operator_type_by_name of another key")
+                def ctor(e_, nm):
+                    o = T("op", T(kind), nm)
+                    made.append(o)
+                    return o
+                return Builtin("ctor", ctor)
+
+        class Half(Model):
+            pass
+        S_ = Builtin("S", lambda e, x: T("S", x))
+        S_.m_getattr = lambda e, a: 1 if a == "One" else None
+        eng.globals.update({"pauli": Namespace("pauli", {"SigmaZ": Builtin("SigmaZ", lambda e, nm: T("SigmaZ", nm))}),
+                            "sympy": Namespace("sympy", {"S": _SNamespace()}), "operator_type_by_name": TypeMap(), "Dagger": Builtin("Dagger", lambda e, x: T("Dagger", x))})
+        res = eng.call(Closure(frontend.find(MODULE, "NumberOperator.doit"), Env(None, {}), "doit"), [me], {})
+        if kind == "LadderOp":
+            eng.oblige("doit:ladder-number-operator-stays", z3.BoolVal(res is me))
+        elif kind == "SigmaOpBase":
+            # (SigmaZ(name) + One) / S(2)
+            ok = isinstance(res, T) and res.head == "Div" and isinstance(res.args[1], T) and res.args[1].head == "S" and res.args[1].args[0] == 2 \
+                and isinstance(res.args[0], T) and res.args[0].head == "Add" and isinstance(res.args[0].args[0], T) and res.args[0].args[0].head == "SigmaZ" \
+                and res.args[0].args[0].args[0] is NAME and res.args[0].args[1] == 1
+            eng.oblige("doit:spin-number-is-(sigma_z+1)/2", z3.BoolVal(bool(ok)), detail=repr(res))
+        else:
+            ok = isinstance(res, T) and res.head == "Mult" and len(made) == 1 and isinstance(res.args[0], T) and res.args[0].head == "Dagger" and res.args[0].args[0] is made[0] \
+                and res.args[1] is made[0] and made[0].args[1] is NAME
+            eng.oblige("doit:number-is-adjoint-times-operator-of-the-same-mode", z3.BoolVal(bool(ok)), detail=repr(res))
+        # power
+        for integer in (True, False):
+            for zero in (True, False):
+                class Exp(Model):
+                    def m_getattr(s, e, attr):
+                        if attr == "is_integer":
+                            return integer
+                        raise Unsupported(f"exp.{attr}")
+
+                    def m_binop(s, e, op, other, reflected):
+                        if isinstance(op, ast.Eq) and other == 0:
+                            return zero
+                        return NotImplemented
+                ex = Exp()
+                sup = []
+
+                class Super(Model):
+                    def m_getattr(s, e, attr):
+                        if attr == "_eval_power":
+                            return Builtin("super._eval_power", lambda e_, x: (sup.append(x), T("sympy-power"))[1])
+                        raise Unsupported(f"super().{attr}")
+                eng.globals["super"] = Builtin("super", lambda e: Super())
+                r = eng.call(Closure(frontend.find(MODULE, "NumberOperator._eval_power"), Env(None, {}), "_eval_power"), [me, ex], {})
+                idem = integer and not zero and kind not in ("BosonOp", "LadderOp")
+                eng.oblige(f"power:idempotent-iff-fermion-or-spin-and-non-zero-integer-exponent[integer={integer},zero={zero}]",
+                           z3.BoolVal((r is me and not sup) if idem else (isinstance(r, T) and r.head == "sympy-power" and sup == [ex])))
+    return run_unit(f"number_ordered_form:NumberOperator.doit/_eval_power[{kind}]", harness,
+                    functions=[(MODULE, "NumberOperator.doit"), (MODULE, "NumberOperator._eval_power")], timeout_ms=timeout_ms)
+
+
+class _SNamespace(Model):
+    """sympy.S: callable (S(2)) and a namespace (S.One)"""
+
+    def m_call(self, eng, args, kwargs):
+        return T("S", args[0])
+
+    def m_getattr(self, eng, name):
+        if name == "One":
+            return 1
+        if name == "Zero":
+            return 0
+        raise Unsupported(f"S.{name}")
+
+
+def unit_ladder_and_helpers(timeout_ms=10000):
+    """LadderOp: args = (name, Integer(flag)), flag One by default; is_annihilation = bool(flag); the adjoint keeps the name and toggles the flag (so Dagger(Dagger(l)) = l and l^+ is not l).
+    _number_operator_to_placeholder: an integer Symbol whose name is built from BOTH the mode name and the operator class (number operators of different modes or classes get different placeholders).
+    _sum (sympy's EXRAW domain): the left fold of `+` over the items, Zero for none."""
+    def harness(eng):
+        NAME = T("name")
+        made = []
+
+        def op_new(e, cls_, *a):
+            made.append((cls_, a))
+            return T("object")
+        eng.globals.update({"Operator": Namespace("Operator", {"__new__": Builtin("Operator.__new__", op_new)}), "One": 1, "Zero": 0,
+                            "sympy": Namespace("sympy", {"Integer": Builtin("Integer", lambda e, x: T("Integer", x)), "Symbol": Builtin("Symbol", lambda e, nm, **kw: T("Symbol", nm, *[T(k, v) for k, v in sorted(kw.items())]))}),
+                            "bool": Builtin("bool", lambda e, x: bool(x.args[0]) if isinstance(x, T) and x.head == "Integer" else bool(x))})
+        CLS = T("cls")
+        new = frontend.find(MODULE, "LadderOp.__new__")
+        eng.call(Closure(new, Env(None, {}), "__new__"), [CLS, NAME], {})
+        eng.call(Closure(new, Env(None, {}), "__new__"), [CLS, NAME, False], {})
+        ok = len(made) == 2 and all(m[0] is CLS and m[1][0] is NAME and isinstance(m[1][1], T) and m[1][1].head == "Integer" for m in made) \
+            and made[0][1][1].args[0] == 1 and made[1][1][1].args[0] is False
+        eng.oblige("LadderOp.__new__:args-are-(name, Integer(flag))-flag-One-by-default", z3.BoolVal(bool(ok)), detail=repr(made))
+        for n_bad in (0, 3):
+            try:
+                eng.call(Closure(new, Env(None, {}), "__new__"), [CLS] + [NAME] * n_bad, {})
+                raised = None
+            except PyRaise as pr:
+                raised = pr.exc.cls
+            except Unsupported as u:
+                raised = f"Unsupported {u}"
+            eng.oblige(f"LadderOp.__new__:{n_bad}-arguments-refused-with-ValueError", z3.BoolVal(raised == "ValueError"), detail=str(raised))
+        for flag in (True, False):
+            class Me(Model):
+                def m_getattr(s, e, attr):
+                    if attr == "args":
+                        return STup([NAME, T("Integer", 1 if flag else 0)])
+                    if attr == "name":
+                        return e.call(Closure(frontend.find(MODULE, "LadderOp.name"), Env(None, {}), "name"), [s], {})
+                    if attr == "is_annihilation":
+                        return e.call(Closure(frontend.find(MODULE, "LadderOp.is_annihilation"), Env(None, {}), "is_annihilation"), [s], {})
+                    raise Unsupported(f"self.{attr}")
+            built = []
+            eng.globals["type"] = Builtin("type", lambda e, x: Builtin("cls", lambda e_, *a: (built.append(a), T("adjoint-object"))[1]))
+            me = Me()
+            eng.oblige(f"LadderOp.is_annihilation-is-bool(flag)[{flag}]", z3.BoolVal(eng.getattr(me, "is_annihilation") is flag))
+            eng.call(Closure(frontend.find(MODULE, "LadderOp._eval_adjoint"), Env(None, {}), "_eval_adjoint"), [me], {})
+            eng.oblige(f"LadderOp._eval_adjoint-keeps-the-name-and-toggles-the-flag[{flag}]", z3.BoolVal(len(built) == 1 and built[0][0] is NAME and built[0][1] is (not flag)), detail=repr(built))
+        # placeholder
+        ph = frontend.find(MODULE, "_number_operator_to_placeholder")
+
+        class NumOp(Model):
+            def __init__(s, a, b):
+                s.a, s.b = a, b
+
+            def m_getattr(s, e, attr):
+                if attr == "args":
+                    return STup([s.a, s.b])
+                raise Unsupported(f"N.{attr}")
+        names = []
+        for a_, b_ in (("a", "BosonOp"), ("a", "FermionOp"), ("b", "BosonOp")):
+            r = eng.call(Closure(ph, Env(None, {}), "_number_operator_to_placeholder"), [NumOp(a_, b_)], {})
+            good = isinstance(r, T) and r.head == "Symbol" and any(isinstance(x, T) and x.head == "integer" and x.args[0] is True for x in r.args[1:])
+            eng.oblige(f"placeholder-is-an-integer-Symbol[{a_},{b_}]", z3.BoolVal(bool(good)), detail=repr(r))
+            names.append(r.args[0] if isinstance(r, T) and r.args else None)
+        eng.oblige("placeholder-names-distinguish-mode-AND-class", z3.BoolVal(all(isinstance(n, str) for n in names) and len(set(names)) == 3), detail=repr(names))
+        # _sum
+        sm = frontend.find(MODULE, "_sum")
+        x, y, z_ = T("x"), T("y"), T("z")
+        r0 = eng.call(Closure(sm, Env(None, {}), "_sum"), [T("domain"), STup([], None, True)], {})
+        r3 = eng.call(Closure(sm, Env(None, {}), "_sum"), [T("domain"), STup([x, y, z_], None, True)], {})
+        okf = isinstance(r3, T) and r3.head == "Add" and r3.args[1] is z_ and isinstance(r3.args[0], T) and r3.args[0].head == "Add" and r3.args[0].args[0] is x and r3.args[0].args[1] is y
+        eng.oblige("_sum:left-fold-of-plus-Zero-for-no-items", z3.BoolVal(isinstance(r0, int) and r0 == 0 and bool(okf)), detail=f"{r0!r} {r3!r}")
+    return run_unit("number_ordered_form:LadderOp/_number_operator_to_placeholder/_sum", harness,
+                    functions=[(MODULE, "LadderOp.__new__"), (MODULE, "LadderOp._eval_adjoint"), (MODULE, "LadderOp.name"), (MODULE, "LadderOp.is_annihilation"),
+                               (MODULE, "_number_operator_to_placeholder"), (MODULE, "_sum")], timeout_ms=timeout_ms)
